@@ -6,7 +6,7 @@ the trusted base of engine M and are exercised by the translator self-test (test
 from __future__ import annotations
 import re
 from . import terms as T
-from .exec import (IntV, BoolV, AggV, EnumV, OpaqueV, FnV, RefV, StrV, UNIT, INT_TYPES, Panic, Unsupported,
+from .exec import (IntV, BoolV, AggV, EnumV, OpaqueV, FnV, RefV, StrV, UNIT, INT_TYPES, Panic, Unsupported, ListV,
                    mk_option, mk_result, mk_ordering, type_head, ty_range, int_type, split_top)
 
 NOT_BUILTIN = object()
@@ -139,6 +139,15 @@ def try_builtin(ex, fr, callee, args, dty):
         return args[0]
     if re.match(r"^(?:std|core)::intrinsics::cold_path$", c) or re.match(r"^(?:std|core)::hint::cold_path$", c):
         return UNIT
+    # ---- byte slices over a symbolic buffer (molecule readers)
+    from . import slices as _sl
+    r = _sl.slice_builtin(ex, fr, c, args, dty)
+    if r is not _sl.NOT:
+        return r
+    # ---- Vec / slices of concrete length, integer ranges
+    r = list_builtin(ex, fr, c, args, dty)
+    if r is not NOT_BUILTIN:
+        return r
     # ---- numext big integers (modelled as mathematical integers with range)
     r = big_method(ex, c, args, dty)
     if r is not NOT_BUILTIN:
@@ -566,4 +575,85 @@ def big_method(ex, c, args, dty):
         return AggV((IntV(T.ite(inr, r, T.emod(r, hi + 1)), ty), BoolV(T.not_(inr))), dty)
     if name in ("checked_div", "checked_rem") and isinstance(a, IntV) and isinstance(b, IntV):
         return mk_option(T.ne(b.t, 0), IntV(T.ediv(a.t, b.t) if name == "checked_div" else T.emod(a.t, b.t), ty), dty)
+    return NOT_BUILTIN
+
+
+# ---------------------------------------------------------------- Vec / slice (concrete length) and Range
+def _wr(ex, ref, val):
+    ex._write(ref.frame, ref.local, list(ref.proj), val)
+
+
+def list_builtin(ex, fr, c, args, dty):
+    m = re.match(r"^(?:std::vec::|alloc::vec::)?Vec::<(.*)>::(new|with_capacity)$", c)
+    if m:
+        return ListV((), "Vec<" + m.group(1) + ">")
+    m = re.match(r"^(?:std::vec::|alloc::vec::)?Vec::<(.*)>::(push|len|is_empty|clear)$", c)
+    if m and isinstance(args[0], RefV):
+        v = deref(ex, args[0])
+        if isinstance(v, ListV):
+            op = m.group(2)
+            if op == "push":
+                _wr(ex, args[0], ListV(v.items + (args[1],), v.ty))
+                return UNIT
+            if op == "len":
+                return IntV(len(v.items), "usize")
+            if op == "is_empty":
+                return BoolV(len(v.items) == 0)
+            if op == "clear":
+                _wr(ex, args[0], ListV((), v.ty))
+                return UNIT
+    m = re.match(r"^<(?:std::vec::|alloc::vec::)?Vec<(.*)> as (?:std::ops::|core::ops::)?(Deref|DerefMut)>::deref(_mut)?$", c)
+    if m and isinstance(args[0], RefV) and isinstance(deref(ex, args[0]), ListV):
+        return args[0]
+    m = re.match(r"^core::slice::<impl \[(.*)\]>::(sort_unstable|sort|len|is_empty)$", c)
+    if m and isinstance(args[0], RefV):
+        v = deref(ex, args[0])
+        if isinstance(v, ListV):
+            op = m.group(2)
+            if op == "len":
+                return IntV(len(v.items), "usize")
+            if op == "is_empty":
+                return BoolV(len(v.items) == 0)
+            if all(isinstance(x, IntV) for x in v.items):
+                # sorting network (bubble): exact for any values, no branching
+                xs = [x.t for x in v.items]
+                ty = v.items[0].ty if v.items else "u64"
+                n = len(xs)
+                for i in range(n):
+                    for j in range(n - 1 - i):
+                        a, b = xs[j], xs[j + 1]
+                        xs[j], xs[j + 1] = T.imin(a, b), T.imax(a, b)
+                _wr(ex, args[0], ListV(tuple(IntV(x, ty) for x in xs), v.ty))
+                return UNIT
+    m = re.match(r"^<(?:std::vec::|alloc::vec::)?Vec<(.*)> as (?:std::ops::|core::ops::)?Index<usize>>::index$", c) or \
+        re.match(r"^<\[(.*)\] as (?:std::ops::|core::ops::)?Index<usize>>::index$", c)
+    if m and isinstance(args[0], RefV):
+        v = deref(ex, args[0])
+        if isinstance(v, ListV) and isinstance(args[1], IntV):
+            i = args[1].t
+            n = len(v.items)
+            if isinstance(i, int):
+                if i >= n:
+                    raise Panic("index out of bounds")
+                return ex.ctx.ref_to(v.items[i])
+            if not ex.decide(T.lt(i, n)):
+                raise Panic("index out of bounds")
+            if all(isinstance(x, IntV) for x in v.items) and n:
+                r = v.items[-1].t
+                for k in range(n - 2, -1, -1):
+                    r = T.ite(T.eq(i, k), v.items[k].t, r)
+                return ex.ctx.ref_to(IntV(r, v.items[0].ty))
+    # Range<int>
+    m = re.match(r"^<(?:std::ops::|core::ops::)?Range<(\w+)> as (?:std::iter::|core::iter::)?IntoIterator>::into_iter$", c)
+    if m:
+        return args[0]
+    m = re.match(r"^<(?:std::ops::|core::ops::)?Range<(\w+)> as (?:std::iter::|core::iter::)?Iterator>::next$", c)
+    if m and isinstance(args[0], RefV):
+        r = deref(ex, args[0])
+        if isinstance(r, AggV) and len(r.fields) == 2 and isinstance(r.fields[0], IntV):
+            start, end = r.fields
+            if ex.decide(T.lt(start.t, end.t)):
+                _wr(ex, args[0], AggV((IntV(T.add(start.t, 1), start.ty), end), r.ty))
+                return mk_option(True, start, dty)
+            return mk_option(False, None, dty)
     return NOT_BUILTIN
